@@ -41,7 +41,7 @@ WellFormed(s) == LET h == Shape(s) IN
 Viable(s) == Shape(s).end = Len(s) + 1
 RECURSIVE ToNum(_, _, _)
 ToNum(ds, i, acc) == IF i > Len(ds) THEN acc ELSE ToNum(ds, i + 1, acc * 10 + DVal(ds[i]))
-DigitVals(ds) == [i \in 1..Len(ds) |-> DVal(ds[i])]
+DigitVals(ds) == TLCEval([i \in 1..Len(ds) |-> DVal(ds[i])])
 RECURSIVE StripL(_), StripR(_)
 StripL(ds) == IF Len(ds) >= 1 /\ ds[1] = 0 THEN StripL(Tail(ds)) ELSE ds
 StripR(v) == IF Len(v.ds) >= 1 /\ v.ds[Len(v.ds)] = 0
